@@ -32,7 +32,7 @@ HOSTS = {"name": ("srv.sim.test", "10.3.0.1", _rs.AF_INET), "ipv4": ("10.3.0.2",
          "redir": ("redir.sim.test", "10.3.0.9", _rs.AF_INET)}
 PORTS = (None, 80, 443, 8080, 1, 65535)
 PATHS = ("", "/", "/chat", "/a/b/c", "/p%20q", "/x.y-z_~", "/socket.io;transport=websocket", "/app/feed;id=7;mode=rw", "/a;v=1/b", "/p;")
-QUERIES = (None, "", "a=1", "a=1&b=%20", "q")
+QUERIES = (None, "", "a=1", "a=1&b=%20", "q", "next=/lobby/7", "q=what?")
 
 
 def build_url(sc):
@@ -53,6 +53,8 @@ def plan(tier, seed):
     per = 250 if tier == "quick" else 2500
     for s in range(0, n, per):
         items.append({"kind": "rand", "start": s, "count": per})
+    items.append({"kind": "traced", "exhaustive": "each option (cookie, Authorization / Proxy-Authorization headers as list and dict, mixed-case "
+                  "subprotocols, origin, host, connection) x scheme x 1..2 connections with the library's trace logging switched on"})
     items.append({"kind": "app", "exhaustive": "WebSocketApp.run_forever(reconnect=1): 1..3 connections lost right after the upgrade x header option "
                   "{callable -> list, callable -> dict with a None value, static list} x {no other option, cookie, subprotocols}"})
     return items
@@ -74,6 +76,15 @@ def expand(item, seed):
                     for q in (None, "a=1"):
                         yield {"scheme": item["scheme"], "host": host, "port": port, "path": path, "query": q, "opts": {},
                                "conns": 1, "seed": 1}
+    elif item["kind"] == "traced":
+        for o in ({}, {"cookie": "sid=abc123; theme=dark"}, {"header": ["Authorization: Bearer s3cr3t-token", "X-One: 1"]},
+                  {"header": {"Authorization": "Basic dXNlcjpwYXNz", "Proxy-Authorization": "Basic eDp5", "X-Token": "abc"}},
+                  {"subprotocols": ["MQTT", "v2.Chat.Example"]}, {"origin": "https://app.example"}, {"host": "virtual.example"},
+                  {"connection": "keep-alive, Upgrade"}, {"cookie": "a=1", "header": {"Cookie2": "x", "X-Api-Key": "k" * 40}}):
+            for scheme in ("ws", "wss"):
+                for conns in (1, 2):
+                    yield {"scheme": scheme, "host": "name", "port": None, "path": "/chat", "query": "a=1", "opts": dict(o), "conns": conns,
+                           "seed": 1, "logtrace": True}
     elif item["kind"] == "app":
         for losses in (1, 2, 3):
             for form in ("list", "dict", "static"):
@@ -98,7 +109,8 @@ def gen(rng):
     if rng.random() < 0.2:
         o["suppress_origin"] = True
     if rng.random() < 0.3:
-        o["subprotocols"] = rng.choice((["chat"], ["chat", "superchat"], ["v1.x", "v2.x", "v3.x"]))
+        o["subprotocols"] = rng.choice((["chat"], ["chat", "superchat"], ["v1.x", "v2.x", "v3.x"], ["MQTT"], ["v2.Chat.Example", "mqtt"],
+                                        ["MQTT", "mqtt"], ["Soap"]))
     if rng.random() < 0.3:
         o["cookie"] = rng.choice(("sid=abc123", "a=1; b=2", "t=" + "x" * 200))
     r = rng.random()
@@ -116,6 +128,8 @@ def gen(rng):
         o["connection"] = rng.choice(("Connection: keep-alive, Upgrade", "Connection: Upgrade, keep-alive", "Upgrade", "keep-alive, Upgrade",
                                       "upgrade"))
     sc["opts"] = o
+    if rng.random() < 0.2:
+        sc["logtrace"] = True
     if sc["conns"] > 1 and rng.random() < 0.3:
         # the server sets a cookie for this host on every connection (it comes back on the following ones): whatever the
         # server puts into it, the next request must still be a valid request
@@ -239,7 +253,7 @@ def run(sc, choices=None):
         path, query = sc.get("path", ""), sc.get("query")
         if path and not path.startswith("/"):
             raise InvalidScenario("path")
-        if any(c in (path + (query or "")) for c in " \r\n#?") or ";" in (query or ""):
+        if any(c in path for c in " \r\n#?") or any(c in (query or "") for c in " \r\n#;"):
             raise InvalidScenario("path chars")
         import copy
         opts = copy.deepcopy(dict(sc.get("opts", {})))  # the caller's own objects: the SAME ones are handed to every connection
@@ -258,7 +272,8 @@ def run(sc, choices=None):
     url = build_url(sc)
     hname, haddr, fam = HOSTS[sc["host"]]
     eff_port = int(port) if port is not None else (443 if scheme == "wss" else 80)
-    w = World(seed=int(sc.get("seed", 1)), step_cap=600_000)
+    # 'logtrace': the library's trace logging is on (the request is written to the log on its way: the wire must not change)
+    w = World(seed=int(sc.get("seed", 1)), step_cap=600_000, trace=bool(sc.get("logtrace")))
     peers = []
     tls = scheme == "wss"
 
